@@ -99,8 +99,16 @@ CLAIMS = {
              "c04_eval_root), and does panic without an interpreter (c04_eval_needs_interpreter). The full Sentence IFF is proved end "
              "to end for certified grammars of the monotone fragment (Props/C04I.lean, c04_sentence_iff: termination + soundness + "
              "completeness: beyond some fuel Parse(Sentence(g)) answers, and succeeds exactly when a derivation of g consumes the "
-             "whole input - direct, indirect and hidden left recursion included); outside that fragment the harness's derivation "
-             "oracle decides the IF direction per case (known finding D9: Name/Single over Optional).",
+             "whole input - direct, indirect and hidden left recursion included). Props/C04S.lean widens it: c04_sentence_iff_strat "
+             "(STRATIFIED grammars - Choice / Many / SepBy / SeqTry / SeqFirstOrAll / Name / Single below a left-recursive monotone "
+             "upper stratum - with meaning DerivesS, termination certificate wfT; both directions also for EVERY answering fuel "
+             "without a certificate: c04_sentence_iff_strat_answered), c04_sentence_iff_memofree (Memoize-free grammars over ALL "
+             "operators incl. trims, meaning = the exact big-step relation Big), c04_sentence_iff_trim_partial (every certified "
+             "grammar, trims and left recursion: termination, xor, success ONLY IF a derivation spans the input). The IF half with "
+             "trims is false under the loose reading of RightTrim (c04s_trim_iff_false: RightTrim does not move a result that "
+             "comes with an error, e.g. over an Optional that did not match - the library's computed parses simply do not include "
+             "it; no property quantifies over RightTrim of a non-token); outside these fragments the harness's derivation oracle "
+             "decides the IF direction per case (known finding D9: Name/Single over Optional).",
         note="c04_sentence_sound needs Scope (no trims, TermGood terminals); c04_xor needs nothing.",
         technique="Lean 4 theorems over the parse/evaluate model (case analysis of Parse, derivation inversion for Sentence, induction for the evaluator) + oracle on the real Parse/Evaluate under recover + differential correspondence"),
     "C05": dict(
@@ -280,9 +288,16 @@ CLAIMS = {
              "c16_find_value from every context and state; proved by forward symbolic execution of the parser core, so termination "
              "on these inputs is part of the statement). Also: every derivation is sentence[JSON tree, EOF], evaluation of a JSON tree "
              "never errors and never panics, and whenever Evaluate answers a value it is the denotation of the parsed tree, otherwise "
-             "an error (c16_tree_shape, c16_eval_total, c16_value_partial, c16_reject_partial, c16_no_panic). OUTSIDE Lean: that "
-             "denote agrees with encoding/json (external library) - checked on every generated document by the differential run with "
-             "UseNumber; the byte-level description of the rejected corruptions is decided per case by the oracle.",
+             "an error (c16_tree_shape, c16_eval_total, c16_value_partial, c16_reject_partial, c16_no_panic). THE CONVERSE "
+             "(Props/C16A.lean): the EXACT language the example parser accepts is the explicit document language JLang "
+             "(c16_accept_iff: accepted <-> JLang; c16_accepts_only_renderings with the tree and its value; c16_rejects_outside / "
+             "c16_evaluate_rejects: everything else yields an error), JLang contains every supported document (c16_supported_in_lang) "
+             "and is STRICTLY larger (c16_more_liberal): form feed as whitespace, integers with '+', hex and octal (017 = 15), "
+             "decimals like .5 and 007.5, string escapes \\a \\v \\xHH \\UHHHHHHHH \\ooo and raw control characters other than CR/LF - "
+             "while 1e5, \\/ and lone surrogates (which encoding/json accepts) are rejected; each form replayed on the real parser "
+             "and on encoding/json. The property speaks of the supported subset, on which both agree. OUTSIDE Lean: that denote "
+             "agrees with encoding/json (external library) - checked on every generated document by the differential run with "
+             "UseNumber.",
         note="strconv.ParseFloat's acceptance of the decimal lexemes is a hypothesis (a model parameter). -0 is not in the subset. "
              "c16_json_tree_not_evalSafe: key/value nodes carry no interpreter, so no-panic is proved directly, not via C04's EvalSafe.",
         technique="Lean 4 theorems on a closed grammar term (forward symbolic execution of the parser model by induction on the document, derivation inversion, evaluation = denotation) + grammar-identity stream + differential run against encoding/json"),
